@@ -59,6 +59,30 @@ def run_queries(insp):
     safety_outcome(insp)
 
 
+# Ambient configuration: FileInspector(tracing=...) is a rarely used
+# constructor argument that must not change any conclusion.  Checks flip it
+# per case (derived from the case, so replay reproduces it).
+TRACING = [False]
+
+
+def tracing_for(key):
+    """Deterministic per-case choice of the tracing flag."""
+    from vcheck import core
+    TRACING[0] = bool(core.h64(('tracing', key)) & 1)
+    return TRACING[0]
+
+
+def new_inspector(name):
+    F = fi()
+    cls = F.ALL_FORMATS[name]
+    if TRACING[0]:
+        try:
+            return cls(tracing=True)
+        except TypeError:
+            return cls()
+    return cls()
+
+
 def drive(name, data, schedule, queries=None, fidelity=False,
           after_chunk=None):
     """Feed `data` cut by `schedule` to a fresh inspector of format `name`.
@@ -66,8 +90,7 @@ def drive(name, data, schedule, queries=None, fidelity=False,
     Returns (verdict, inspector, fidelity_failures).  On an exception out of
     eat_chunk the inspector is not fed again (InspectWrapper's contract).
     """
-    F = fi()
-    insp = F.ALL_FORMATS[name]()
+    insp = new_inspector(name)
     err = None
     fid = []
     for i, chunk in enumerate(chunking.chunks(data, schedule)):
